@@ -172,7 +172,7 @@ def run(ctx):
                     exp = ('accept', None)
                 if exp[0] == 'reject':
                     if notifs != [exp[1]] or r2[2][0] != 1:
-                        kid = 'C05-hold-1-2-accepted-when-own-hold-0' if (phold in (1, 2) and h == 0 and not notifs) else None
+                        kid = None
                         if not (kid and kid in seen_known):
                             viol.append({'what': 'peer OPEN (%s, hold %d) answered %r state %d, expected NOTIFICATION %r and Idle'
                                                  % (kind, phold, notifs, r2[2][0], exp[1]),
